@@ -41,6 +41,7 @@ partial def parseValue : Toks → Option (V × Toks)
   | "F" :: r => some (.bool false, r)
   | "I" :: i :: r => i.toInt?.map (fun i => (.int i, r))
   | "X" :: h :: r => (unhexAscii h).map (fun s => (.str s, r))
+  | "Y" :: h :: r => (unhexAscii h).map (fun s => (.safe s, r))
   | "L" :: n :: r => match n.toNat? with
     | some n => (parseList n r []).map (fun (xs, r) => (.seq xs, r))
     | none => none
@@ -89,6 +90,12 @@ def parseInstr : Toks → Option (Instr × Toks)
     | some s, some n => some (.callMethod s n, r)
     | _, _ => none
   | "CallObject" :: n :: r => n.toNat?.map (fun n => (.callObject n, r))
+  | "CallFunctionDyn" :: h :: r => (unhexAscii h).map (fun s => (.callDyn (.callFunction s 0), r))
+  | "CallMethodDyn" :: h :: r => (unhexAscii h).map (fun s => (.callDyn (.callMethod s 0), r))
+  | "CallObjectDyn" :: r => some (.callDyn (.callObject 0), r)
+  | "ApplyFilterDyn" :: h :: r => (unhexAscii h).map (fun s => (.callDyn (.applyFilter s 0), r))
+  | "PerformTestDyn" :: h :: r => (unhexAscii h).map (fun s => (.callDyn (.performTest s 0), r))
+  | "UnpackLists" :: n :: r => n.toNat?.map (fun n => (.unpackLists n, r))
   | "IsUndefined" :: r => some (.isUndefined, r)
   | "Enclose" :: h :: r => (unhexAscii h).map (fun s => (.enclose s, r))
   | "GetClosure" :: r => some (.getClosure, r)
@@ -130,7 +137,11 @@ def parseInstr : Toks → Option (Instr × Toks)
   | "JumpIfFalse" :: t :: r => t.toNat?.map (fun t => (.jumpIfFalse t, r))
   | "JumpIfFalseOrPop" :: t :: r => t.toNat?.map (fun t => (.jumpIfFalseOrPop t, r))
   | "JumpIfTrueOrPop" :: t :: r => t.toNat?.map (fun t => (.jumpIfTrueOrPop t, r))
-  | "BeginCapture" :: r => some (.beginCapture, r)
+  | "BeginCapture" :: r => some (.beginCapture false, r)
+  | "BeginCaptureDiscard" :: r => some (.beginCapture true, r)
+  | "ExportLocals" :: r => some (.exportLocals, r)
+  | "PushAutoEscape" :: r => some (.pushAutoEscape, r)
+  | "PopAutoEscape" :: r => some (.popAutoEscape, r)
   | "EndCapture" :: r => some (.endCapture, r)
   | "DupTop" :: r => some (.dupTop, r)
   | "DiscardTop" :: r => some (.discardTop, r)
@@ -160,7 +171,7 @@ partial def parseCodes : Nat → Toks → List (String × Array Instr) → Optio
     others are the templates it can include -/
 def parseProg (ctx : List (String × V)) (toks : Toks) : Option (St × Prog) :=
   match toks with
-  | "C" :: "@" :: "F" :: f :: "P" :: k :: r => match k.toNat? with
+  | "C" :: "@" :: "F" :: f :: "A" :: ae :: "P" :: k :: r => match k.toNat? with
     | some k => match parseCodes k r [] with
       | some codes =>
         let named := (codes.zipIdx.drop 1).map (fun p => (p.1.1, p.2))
@@ -174,7 +185,7 @@ def parseProg (ctx : List (String × V)) (toks : Toks) : Option (St × Prog) :=
                              templates := tmpls,
                              blocks := (blk.filter (fun p => p.1 == "-")).map (fun p => p.2),
                              parentBlocks := tmpls.map (fun t => (t.1, (blk.filter (fun p => p.1 == t.1)).map (fun p => p.2))) }
-        some ({ ctx := ctx, formatter := f.toNat?.getD 0 }, prog)
+        some ({ ctx := ctx, formatter := f.toNat?.getD 0, autoEscape := ae == "1" }, prog)
       | none => none
     | none => none
   | _ => none
@@ -211,8 +222,8 @@ def kindValue (k : String) : V :=
     (`conv-err` = an `UndefinedError` of the conversion, `body` = the body is reached), and whether
     the whole call (conversion + the questions of the body's hand model, nested calls included)
     fails at a question (`ask-err`) -/
-def sigLine (id kind name : String) (kinds : List String) : String :=
-  match sigOf kind name with
+def sigLine (contrib : Bool) (id kind name : String) (kinds : List String) : String :=
+  match (if contrib then contribSigOf kind name else sigOf kind name) with
   | none => s!"{id}\tno-sig"
   | some (sig, reach) =>
     let args := kinds.map kindValue
@@ -220,14 +231,15 @@ def sigLine (id kind name : String) (kinds : List String) : String :=
       | .ok _ => "body"
       | .error .undefinedError => "conv-err"
       | .error _ => "other-err")
-    let qs := Mode.all.map (fun m => match callBuiltin Ops.convOnly kind name args with
+    let qs := Mode.all.map (fun m => match (if contrib then none else callBuiltin Ops.convOnly kind name args) with
       | some c => if c.failsAtAsk m then "ask-err" else "pass"
       | none => "pass")
     id ++ "\t" ++ "\t".intercalate rs ++ "\t" ++ (if reach.isEmpty then "pure" else "touching") ++ "\t" ++ "\t".intercalate qs
 
 def handle (ctx : List (String × V)) (line : String) : String :=
   match line.splitOn "\t" with
-  | "sig" :: id :: kind :: name :: kinds => sigLine id kind name (kinds.filter (· != ""))
+  | "sig" :: id :: kind :: name :: kinds => sigLine false id kind name (kinds.filter (· != ""))
+  | "sigx" :: id :: kind :: name :: kinds => sigLine true id kind name (kinds.filter (· != ""))
   | [_, id, _, _, _, _, _, _, prog] =>
     if prog = "-" then s!"{id}\t-" else
     match parseProg ctx (prog.splitOn " ") with
